@@ -10,5 +10,5 @@ Local Open Scope R_scope.
 Lemma jedynak_inverts : inverts jedynak_f (1 / 20) (19 / 20) (5 / 1000).
 Proof.
   intros y Hy. unfold jedynak_f, Lang. cbv zeta. try rewrite !(Rabs_right y) by lra.
-  interval with (i_bisect y, i_depth 18, i_prec 40).
+  interval with (i_bisect y, i_taylor y, i_degree 6, i_depth 24, i_prec 50).
 Qed.
